@@ -13,8 +13,10 @@ def run_cases(ctx, module, cfg, kind, name, flt=None):
     inp = os.path.join(ctx.scratch, name + ".cases.ndjson")
     vlib.write_ndjson(inp, cases)
     outp = os.path.join(ctx.scratch, name + ".result.json")
-    r = subprocess.run([exe, "-kind", kind, "-cases", inp, "-out", outp, "-seed", str(ctx.seed), "-scratch",
-                        os.path.join(ctx.scratch, "cases-" + name)], stdout=subprocess.PIPE, stderr=subprocess.STDOUT, text=True)
+    cmd = [exe, "-kind", kind, "-cases", inp, "-out", outp, "-seed", str(ctx.seed), "-scratch", os.path.join(ctx.scratch, "cases-" + name)]
+    if kind == "record":
+        cmd += ["-agent", ctx.build_agent()]
+    r = subprocess.run(cmd, stdout=subprocess.PIPE, stderr=subprocess.STDOUT, text=True)
     if r.returncode != 0 or not os.path.exists(outp):
         ctx.fatal("casereplay failed: " + r.stdout[-2000:])
     out = json.load(open(outp))
